@@ -52,6 +52,11 @@ def coerce(c, dt):
         return float(c)
     if k in 'iu':
         if isinstance(c, SInt):
+            if dt.itemsize < 8 and core.active():
+                # mathematical integers stand in for machine words: a value stored into a narrow integer array must be
+                # representable there, otherwise NumPy wraps silently (astype / in-place arithmetic) - recorded as an obligation
+                info = _np.iinfo(dt)
+                core.cur().wrap_obligations.append((str(dt), (c >= int(info.min)) & (c <= int(info.max))))
             return c
         if isinstance(c, SBool):
             return core._int_of_bool(c)
